@@ -567,6 +567,9 @@ func genC09(out *Out, r *Rng, tier string, n int, shard int) {
 	for k := 0; k < 3+n/6; k++ {
 		emitRegistryRouting(out, r)
 	}
+	for k := 0; k < 6+n/3; k++ {
+		emitRegistryHistory(out, r)
+	}
 	for i := 0; i < n; i++ {
 		is := NewIssuer(r, r.Intn(5))
 		// revoked set: empty / sparse / dense / sharing low bits with the queried nonce
